@@ -127,3 +127,21 @@ Qed.
 
 Lemma zfirstn_zskipn {A} n (l : list A) : zfirstn n l ++ zskipn n l = l.
 Proof. apply firstn_skipn. Qed.
+
+(* ---------- decidable equality of byte strings ---------- *)
+Fixpoint bytes_beq (a b : bytes) : bool :=
+  match a, b with
+  | [], [] => true
+  | x :: a', y :: b' => (x =? y) && bytes_beq a' b'
+  | _, _ => false
+  end.
+
+Lemma bytes_beq_spec a b : bytes_beq a b = true <-> a = b.
+Proof.
+  revert b; induction a as [|x a IH]; intros [|y b]; cbn; split; intros H; try discriminate; try reflexivity.
+  - apply andb_prop in H. destruct H as [H1 H2]. apply Z.eqb_eq in H1. apply IH in H2. subst. reflexivity.
+  - inversion H; subst. rewrite Z.eqb_refl. cbn. apply IH. reflexivity.
+Qed.
+
+Lemma bytes_beq_refl a : bytes_beq a a = true.
+Proof. apply bytes_beq_spec. reflexivity. Qed.
